@@ -295,6 +295,10 @@ impl Check for C10 {
             })
             .boxed()
     }
+    fn max_shrink_iters(&self) -> u32 {
+        // a few cases cost a second of real time (slow first connection)
+        128
+    }
     fn cases(&self, tier: Tier) -> u64 {
         tier.pick(4_000, 100_000)
     }
